@@ -99,7 +99,7 @@ impl Prop for C10 {
         ];
         let s = (conf, gen::entry_src(tier), vec(any::<u16>(), 60), vec(gen::probe(), 20), vec(range_strategy(), 10), vec(prefix_strategy(), 10), gen::history(120), forged)
             .prop_map(|(conf, src, picks, probes, ranges, prefixes, ops, forged_count)| Case { spec: FileSpec { conf, src }, picks, probes, ranges, prefixes, ops, forged_count });
-        vec![stage("files", s, tier.pick(2000, 60_000)).shrink(600)]
+        vec![stage("files", s, tier.pick(2000, 20_000)).shrink(600)]
     }
 
     fn rule(&self) -> String {
